@@ -6,6 +6,7 @@ import (
 	"fmt"
 	"io"
 	"strconv"
+	"strings"
 
 	"github.com/keybase/saltpack"
 )
@@ -18,7 +19,12 @@ func genClassify(h *H) {
 	}
 	brands := []string{"", "KB", "KEYBASE", randBrand(h.rng, 40)}
 	for r := 0; r < rounds; r++ {
-		for _, p := range h.producers() {
+		prods := h.producers()
+		if r == 0 {
+			prods = append(prods, h.bigHeaderProducers()...)
+		}
+		for _, p := range prods {
+			big := len(p.wire) > 60000
 			typ := map[string]int{"enc": 0, "att": 1, "det": 2, "sc": 3}[p.name]
 			v := parseVersion(p.v)
 			full := fmt.Sprintf("cls:%d:%d.%d", typ, v.Major, v.Minor)
@@ -58,6 +64,11 @@ func genClassify(h *H) {
 						dense = 260 + 3*len(brand)
 					}
 					for k := 0; k <= lim; k += step {
+						if big && k > dense && k != 500 && k != 2000 {
+							// the model's armored classifier is quadratic in the prefix length; the whole
+							// text is still classified by the implementation in the cls_stream case below
+							continue
+						}
 						if k > dense && k != lim {
 							if thorough && k%37 != 0 || !thorough && k%211 != 0 {
 								continue
@@ -108,6 +119,31 @@ func genClassify(h *H) {
 		"BEGIN KB SALTPACK DETACHED SIGNATURE", "BEGIN KB SALTPACK SIGNED MESSAGEX", "BEGIN A B C D E", "BEGIN KB KB SALTPACK", ">\n BEGIN\tKB", "BEGIN KB SALTPACK ENCRYPTED MESSAGE ."} {
 		h.Run(Case{Op: "cls_arm", A: map[string]string{"s": hx([]byte(s))}})
 	}
+}
+
+// genuine messages whose header is 65536 bytes or longer, so that the outer header object is a
+// MessagePack bin32 (the library's own Seal/SigncryptSeal to several hundred recipients)
+func (h *H) bigHeaderProducers() []producer {
+	var out []producer
+	msg := h.rng.Bytes(20)
+	rsk, ssk := h.randBoxSk(), h.randBoxSk()
+	var pks []string
+	for i := 0; i < 800; i++ {
+		pk := boxPk(h.rng.Bytes(32))
+		if i == 799 {
+			pk = boxPk(rsk)
+		}
+		pks = append(pks, hx(pk)+":v")
+	}
+	w, _, err := implSeal(parseVersion("2.0"), hx(ssk), strings.Join(pks, ","), [][]byte{msg}, h.rng.Bytes(8192), true)
+	if err != nil {
+		fatal("big-header producer: %v", err)
+	}
+	if w[0] != 0xc6 {
+		fatal("big-header producer: header is not a bin32 (%x)", w[0])
+	}
+	out = append(out, producer{name: "enc", v: "2.0", wire: w, msg: msg, boxSk: rsk, encSk: ssk})
+	return out
 }
 
 func keysOf(p producer) string {
